@@ -28,7 +28,7 @@ Req(name, cond) == IF cond THEN TRUE ELSE PrintT(<<"FAIL", l, name>>) /\ FALSE
 -----------------------------------------------------------------------------
 (* projection equality *)
 Zeros(n) == [k \in 1..n |-> 0]
-TokVec(g, p, e) == [k \in 1..g.outs |-> Tok(p, k - 1 + g.obase, e)]
+TokVec(g, p, e) == [k \in 1..g.outs |-> Tok(p, k - 1 + g.obase, e, ghost.salt)]
 
 ValsMatch(g, st) ==
     IF g.outs = 0 \/ g.pts = {} THEN st.vals = <<>>
@@ -119,9 +119,9 @@ Commit(o, res) ==
 
 Unch == UNCHANGED ghost
 
-TInit == l = 1 /\ gs = <<Empty, Empty>> /\ ghost = [cand |-> {}]
+TInit == l = 1 /\ gs = <<Empty, Empty>> /\ ghost = [cand |-> {}, salt |-> 0]
 
-TReset == IsEvent("Reset") /\ gs' = <<Empty, Empty>> /\ ghost' = [cand |-> {}]
+TReset == IsEvent("Reset") /\ gs' = <<Empty, Empty>> /\ ghost' = [cand |-> {}, salt |-> IF Has(Ev, "salt") THEN Ev.salt ELSE 0]
 \* the driver reached the end of the scenario (a crash inside the library leaves the execution without it)
 TEnd == IsEvent("End") /\ UNCHANGED <<gs, ghost>>
 
